@@ -117,6 +117,8 @@ int walk_expect(const InstModel &m, const std::vector<std::string> &lines, int m
 // call JIT code with every caller-saved register other than rax zeroed (deterministic; a stray memory
 // operand through one of them faults on the null page)
 uint64_t call_zeroed(const void *code);
+// the environment asmline documents for -r[=LEN]: six pointers to zero-initialised arrays of LEN 64-bit elements
+uint64_t call_with_arrays(const void *code, int len);
 // does `line` behave as an exec-safe line when executed (sandwich test under all option states)?
 bool validate_exec_safe(const std::string &line, bool writes_rax);
 
